@@ -217,9 +217,52 @@ def r4_skip_paths(ctx, rule):
                'handled by `continue`')
 
 
+def r5_reader_encoding_and_eol(ctx, rule):
+    """The reader decodes the file and the $HEX[] payloads with exactly the encoding it was given; every removal of line
+    terminators treats CR and LF alike (also in the encoding autodetection, which must see the same hex payloads)."""
+    iq = TFI + 'TrainerFileInput.__init__'
+    ifn = ctx.fn(iq)
+    encp = 'encoding'
+    assigns = [s for s in walk_stmts(ifn.body) if isinstance(s, ast.Assign) and U(s.targets[0]) == 'self.encoding']
+    opens = [c for c in calls_in(ifn) if call_name(c) in ('codecs.open', 'open')]
+    facts = {'assignments': [U(a) for a in assigns], 'open': [U(o)[:100] for o in opens]}
+    rebound = [U(s_) for s_, v_ in stores_in(ifn).get(encp, [])]
+    facts['parameter_rebound'] = rebound
+    ok = not rebound and len(assigns) == 1 and U(assigns[0].value) == encp and len(opens) == 1 \
+        and U(kwarg(opens[0], 'encoding', 2 if call_name(opens[0]) == 'codecs.open' else 3)) in ('self.encoding', encp)
+    if ok:
+        ctx.ok(rule, iq, 'the file is opened with, and self.encoding is, exactly the encoding parameter', facts)
+    else:
+        ctx.bad(rule, iq, 'reader encoding %s / open %s' % (facts['assignments'], facts['open']),
+                'the reader must decode the file and the $HEX[] payloads with exactly the encoding it was given; a remapped '
+                'codec (e.g. utf-8-sig) treats the same bytes differently in a streamed line and in a one-shot hex decode, so '
+                'plain and hex spellings of one password diverge', facts, ifn)
+    n = 0
+    for q in (TFI + 'detect_file_encoding', RP):
+        fn = ctx.fn(q)
+        for c in calls_in(fn):
+            if isinstance(c.func, ast.Attribute) and c.func.attr in ('rstrip', 'strip') and c.args:
+                a = c.args[0]
+                v = const(a)
+                if v is NOCONST and isinstance(a, ast.Call) and call_name(a) == 'bytes' and a.args:
+                    v = const(a.args[0])
+                if isinstance(v, (str, bytes)):
+                    chars = set(v.decode('latin-1') if isinstance(v, bytes) else v)
+                    if chars & {'\r', '\n'}:
+                        n += 1
+                        if not {'\r', '\n'} <= chars:
+                            ctx.bad(rule, q, 'line terminator strip %s' % U(c)[:60],
+                                    'CRLF and LF lists must be read alike: a strip that removes only one of CR/LF leaves the '
+                                    'other on the line (a $HEX[...] line is then no longer recognised, or a CR becomes part of '
+                                    'the password)', None, c)
+                        else:
+                            ctx.ok(rule, q, '%s removes CR and LF' % U(c)[:40])
+    ctx.floor(rule, RP, n, 1, 'line-terminator strips in the trainer input path')
+
+
 def rules(tier):
     return [('C19.R1', r1_three_passes), ('C19.R2', r2_password_count), ('C19.R3', r3_multiplicity_and_r6_strip),
-            ('C19.R4', r4_skip_paths)]
+            ('C19.R4', r4_skip_paths), ('C19.R5', r5_reader_encoding_and_eol)]
 
 
 META = {
